@@ -382,6 +382,9 @@ string Subprocess::communicate(
     close(this->stdin_write_fd);
     this->stdin_write_fd = -1;
   } else {
+    // A blocking write of a large input would never return if the child
+    // blocks writing its output, which we only read between writes
+    make_fd_nonblocking(this->stdin_write_fd);
     p.add(this->stdin_write_fd, POLLOUT);
   }
   p.add(this->stdout_read_fd, POLLIN);
@@ -431,7 +434,9 @@ string Subprocess::communicate(
           bytes_remaining);
 
       bool should_close_stdin = false;
-      if (bytes_written <= 0) {
+      if ((bytes_written < 0) && (errno == EAGAIN || errno == EINTR || errno == EWOULDBLOCK)) {
+        should_close_stdin = false;
+      } else if (bytes_written <= 0) {
         should_close_stdin = true;
       } else {
         stdin_offset += bytes_written;
